@@ -803,8 +803,19 @@ func runSession(t *testing.T, cfg *sessCfg, job *sessJob, rng *mrand.Rand, sched
 		users := [][2]int{{S[b].gen, S[b].rgen}, {S[b].gen, 0}, {0, S[b].rgen}, {-S[b].gen, S[b].rgen}, {S[b].gen, -S[b].rgen}, {-S[b].gen, -S[b].rgen}}
 		mm.User = users[rng.Intn(len(users))]
 		mm.UShape = 1 + rng.Intn(4)
-		keys := [][2]any{{b, S[b].gen}, {peer, S[b].rgen}, {peer, 0}, {"X", 0}}
-		mm.Key = keys[rng.Intn(4)]
+		keys := [][2]any{{b, S[b].gen}, {peer, S[b].rgen}, {peer, 0}, {"X", 0}, {"none", 0}}
+		mm.Key = keys[rng.Intn(len(keys))]
+		if (mm.Kind == "req" || mm.Kind == "succ") && rng.Intn(4) == 0 {
+			// everything right except that the message carries no MESSAGE-INTEGRITY attribute at all: the right USERNAME on a
+			// request; the transaction id and the source of an outstanding check on a response
+			mm.User, mm.Key = [2]int{S[b].gen, S[b].rgen}, [2]any{"none", 0}
+			if mm.Kind == "succ" && len(ps.Pend) > 0 {
+				x := ps.Pend[rng.Intn(len(ps.Pend))]
+				mm.Tid = S[b].tids[x.Tid]
+				raw = S[b].raw[mm.Tid]
+				mm.Src = sym(x.Dst)
+			}
+		}
 		if mm.Kind == "other" && len(ps.Pend) > 0 && rng.Intn(2) == 0 {
 			// the most tempting shape: signed with the remote password, carrying the transaction id of an outstanding check,
 			// coming from the address that check went to
@@ -925,7 +936,11 @@ func runSession(t *testing.T, cfg *sessCfg, job *sessJob, rng *mrand.Rand, sched
 		} else {
 			setters = append(setters, ice.AttrControlled(ftb))
 		}
-		setters = append(setters, ice.PriorityAttr(2130706431), stun.NewShortTermIntegrity(pw), stun.Fingerprint)
+		setters = append(setters, ice.PriorityAttr(2130706431))
+		if k, _ := mm.Key[0].(string); k != "none" {
+			setters = append(setters, stun.NewShortTermIntegrity(pw))
+		}
+		setters = append(setters, stun.Fingerprint)
 		msg, err := stun.Build(setters...)
 		if err != nil {
 			panic(err)
